@@ -226,6 +226,17 @@ def _localise(name, seed, rep, cond, names=True):
         S._enabled = True
 
 
+def _mech(entry, arg, kind, subpath):
+    """Mechanism key: entry point + argument + kind (+ `sub`: where inside a composite argument, with list
+    indices and column / key names removed, e.g. '.uncertainty.array', '.mask', '.meta')."""
+    import re
+    m = {'entry': entry, 'arg': arg, 'kind': kind}
+    sub = re.sub(r'\[[^\]]*\]', '', subpath or '')
+    if sub:
+        m['sub'] = sub
+    return m
+
+
 def run_case(case):
     if case.shard >= SUITE_SHARD:
         return _replay_testsuite_module(case)
@@ -291,7 +302,7 @@ def run_case(case):
                     locs[ro] = _localise(name, seed, rep, cond, set(ro) if ro else True)
                 loc = locs.get(ro)
                 case.check(False, 'input_unchanged',
-                           {'entry': ev['entry'], 'arg': arg, 'kind': kind},
+                           _mech(ev['entry'], arg, kind, d['subpath']),
                            table_entry=name, rep=rep, cond=cond, subpath=d['subpath'], defn=ev['defn'],
                            call_kind=ev['kind'], raised=ev['raised'], change=d['detail'], localisation=loc)
     # case-level sentinel: everything the harness handed out, compared once more at the end of the case.
@@ -478,7 +489,7 @@ def _suite_records(recs, tier, seed):
                     continue
                 if key not in pm['viol']:
                     pm['viol'][key] = {'what': 'input_unchanged',
-                                       'mech': {'entry': ev['entry'], 'arg': d['arg'], 'kind': d['kind']},
+                                       'mech': _mech(ev['entry'], d['arg'], d['kind'], d['subpath']),
                                        'detail': core._jsonable({'test': node, 'subpath': d['subpath'], 'defn': ev['defn'],
                                                                  'raised': ev['raised'], 'change': d['detail'],
                                                                  'workload': 'repository test-suite'})}
